@@ -6,3 +6,5 @@ from ..scen_expr import option_tails
 def run(ctx):
     go_chain(ctx, want=('go.validate_before_io',))
     option_tails(ctx)
+    from ..scen_misc import preset_collection
+    preset_collection(ctx)
